@@ -92,3 +92,5 @@ func verifStep() int             { return 0 }
 func verifYield()                { runtime.Gosched() }
 func verifAwaitAfterFunc(id int) {}
 func verifAtomic(f func())      { f() }
+func verifLastRandN() int           { return 0 }
+func verifLastRand() int            { return 0 }
